@@ -12,9 +12,9 @@ static LD const U_ = LD(std::numeric_limits<R>::epsilon()) / 2;
 static int const EXMAX = std::numeric_limits<R>::max_exponent; // 1024 / 128
 static R const MINN = std::numeric_limits<R>::min();           // smallest normal number
 
-enum { L_MF, L_MF_BREAKPOINT, L_MF_DEGENERATE, L_MF_SMOOTH, L_MF_LINEAR, L_OPR, L_OPR_BOUNDARY, L_INFER, L_INFER_2x2, L_INFER_NONE_ACTIVE, L_INFER_ZERO_JOINT, L_OPR_EQU, L_OPR_CAP_B, L_N_GE_5, L_ACTIVE_GE_3, L_MF_EXTREME_SCALE, L_RECONFIGURED };
+enum { L_MF, L_MF_BREAKPOINT, L_MF_DEGENERATE, L_MF_SMOOTH, L_MF_LINEAR, L_OPR, L_OPR_BOUNDARY, L_INFER, L_INFER_2x2, L_INFER_NONE_ACTIVE, L_INFER_ZERO_JOINT, L_OPR_EQU, L_OPR_CAP_B, L_N_GE_5, L_ACTIVE_GE_3, L_MF_EXTREME_SCALE, L_RECONFIGURED, L_RULE_ORDER_SWITCH };
 static char const *const labels[] = {"membership_function", "x_within_2ulp_of_breakpoint", "degenerate_shoulder", "smooth_family", "piecewise_linear_family", "operators", "operator_boundary_argument",
-                                     "inference_step", "ge_2_active_sets_on_both_inputs", "no_active_set", "all_joint_memberships_zero", "operator_equ", "operator_cap_bounded", "rule_order_ge_5", "ge_3_active_sets_on_an_input", "mf_scaled_into_the_outer_eighth_of_the_exponent_range", "consequent_tables_changed_mid_history", nullptr};
+                                     "inference_step", "ge_2_active_sets_on_both_inputs", "no_active_set", "all_joint_memberships_zero", "operator_equ", "operator_cap_bounded", "rule_order_ge_5", "ge_3_active_sets_on_an_input", "mf_scaled_into_the_outer_eighth_of_the_exponent_range", "consequent_tables_changed_mid_history", "rule_base_of_another_order_installed_mid_history", nullptr};
 static char const *const metrics[] = {"max_mf_error_over_tol", "max_inference_error_over_tol", "max_active_sets", nullptr};
 static uint8_t const dict[] = {0, 1, 2, 3, 7, 8};
 static vp_info const info = {"C13", "fuzzy", "", labels, metrics, 400, dict, sizeof(dict)};
@@ -395,7 +395,7 @@ static void case_infer(Tape &t, Ctx &cx)
     ctx.pid.outmin = -1e6;
     ctx.pid.summax = 1e6;
     ctx.pid.summin = -1e6;
-    a_pid_fuzzy_set_opr(&ctx, f.opr);
+    install_opr(&ctx, f.opr, f.opr_style);
     // exact-size copies of the tables (an index overrun is an ASan error)
     auto dup = [](std::vector<R> const &v) {
         R *p = (R *)malloc(sizeof(R) * v.size());
@@ -403,8 +403,32 @@ static void case_infer(Tape &t, Ctx &cx)
         return p;
     };
     R *me = dup(f.me), *mec = dup(f.mec), *kp = dup(f.kp), *ki = dup(f.ki), *kd = dup(f.kd);
+    // optionally a second rule base of another order, installed later on the live controller; the scratch block is then registered
+    // once, sized for the larger order (every set active at once), instead of being re-registered tightly before every step
+    FuzzyCfg f2;
+    uint8_t two_b = t.u8();
+    bool two = two_b % 4 == 0, reg_once = two || (two_b % 4 == 1);
+    R *me2 = nullptr, *mec2 = nullptr, *kp2 = nullptr, *ki2 = nullptr, *kd2 = nullptr;
+    if (two)
+    {
+        gen_fuzzy(t, cx, f2, false);
+        me2 = dup(f2.me); mec2 = dup(f2.mec); kp2 = dup(f2.kp); ki2 = dup(f2.ki); kd2 = dup(f2.kd);
+    }
+    struct Fr2 { R *a, *b, *c, *d, *e; void *big = nullptr; ~Fr2() { free(a); free(b); free(c); free(d); free(e); free(big); } } fr2{me2, mec2, kp2, ki2, kd2};
+    unsigned nmax = two && f2.n > f.n ? f2.n : f.n;
     struct Fr { R *a, *b, *c, *d, *e; void *buf = nullptr; ~Fr() { free(a); free(b); free(c); free(d); free(e); free(buf); } } fr{me, mec, kp, ki, kd};
+    if (reg_once && (two_b & 8))
+    {
+        // registered before the rule base is known
+        fr2.big = malloc(A_PID_FUZZY_BFUZZ(nmax));
+        a_pid_fuzzy_set_bfuzz(&ctx, fr2.big, nmax);
+    }
     a_pid_fuzzy_set_rule(&ctx, f.n, me, mec, f.use_kp ? kp : nullptr, f.use_ki ? ki : nullptr, f.use_kd ? kd : nullptr);
+    if (reg_once && !fr2.big)
+    {
+        fr2.big = malloc(A_PID_FUZZY_BFUZZ(nmax));
+        a_pid_fuzzy_set_bfuzz(&ctx, fr2.big, nmax);
+    }
     a_pid_fuzzy_init(&ctx);
     R bkp = R(int(t.u8() % 41) - 20), bki = R(t.u8() % 21) / 4, bkd = R(int(t.u8() % 41) - 20) / 2;
     a_pid_fuzzy_set_kpid(&ctx, bkp, bki, bkd);
@@ -425,6 +449,19 @@ static void case_infer(Tape &t, Ctx &cx)
             cx.log("  set_rule mid-history: kp %d ki %d kd %d\n", f.use_kp, f.use_ki, f.use_kd);
             cx.label(L_RECONFIGURED);
             cx.hash.add(m & 7);
+        }
+        if (two && s > 0 && t.u8() % 3 == 0)
+        {
+            // the other rule base (other order, other tables) on the live controller; the scratch block stays as registered
+            std::swap(f, f2);
+            std::swap(me, me2); std::swap(mec, mec2); std::swap(kp, kp2); std::swap(ki, ki2); std::swap(kd, kd2);
+            fr.a = me; fr.b = mec; fr.c = kp; fr.d = ki; fr.e = kd;
+            fr2.a = me2; fr2.b = mec2; fr2.c = kp2; fr2.d = ki2; fr2.e = kd2;
+            a_pid_fuzzy_set_rule(&ctx, f.n, me, mec, f.use_kp ? kp : nullptr, f.use_ki ? ki : nullptr, f.use_kd ? kd : nullptr);
+            install_opr(&ctx, f.opr, f.opr_style);
+            cx.log("  other rule base: order %u operator %u\n", f.n, f.opr);
+            cx.label(L_RULE_ORDER_SWITCH);
+            cx.hash.add(0x5117u + f.n);
         }
         // error and error change anywhere in / around the table ranges, incl. exactly on set centres
         auto gv = [&](R L) -> R {
@@ -454,11 +491,14 @@ static void case_infer(Tape &t, Ctx &cx)
         cx.metric(2, R(N));
         if (N >= 3) { cx.label(L_ACTIVE_GE_3); }
         // scratch buffer of exactly the documented size for the number of simultaneously active sets
-        free(fr.buf);
-        size_t nb = A_PID_FUZZY_BFUZZ(N);
-        fr.buf = malloc(nb ? nb : 1);
-        memset(fr.buf, 0xA5, nb);
-        a_pid_fuzzy_set_bfuzz(&ctx, fr.buf, N);
+        if (!reg_once)
+        {
+            free(fr.buf);
+            size_t nb = A_PID_FUZZY_BFUZZ(N);
+            fr.buf = malloc(nb ? nb : 1);
+            memset(fr.buf, 0xA5, nb);
+            a_pid_fuzzy_set_bfuzz(&ctx, fr.buf, N);
+        }
         int mode = t.u8() % 3;
         cx.log("  step %u: e=%.17g ec=%.17g active %zu x %zu mode %d\n", s, e, ec, ie.size(), iec.size(), mode);
         if (mode == 0) { a_pid_fuzzy_pos(&ctx, set, fdb); }
